@@ -4,5 +4,5 @@ CONSTANTS
   UpCases <- AllUp
   Defects = {}
 SPECIFICATION Spec
-INVARIANTS TypeOK RaceFinal RaceNoMix LastPushWins SelectionIsPick NeverNotReady AuthSound PlainOnlyIfInspector TlsServedWhenReady UpSound EmitCase
+INVARIANTS TypeOK RaceFinal RaceNoMix LastPushWins SelectionIsPick NeverNotReady AuthSound ResumeAsFull PlainOnlyIfInspector TlsServedWhenReady UpSound EmitCase
 CHECK_DEADLOCK FALSE
